@@ -13,20 +13,32 @@ import warnings  # noqa: E402
 
 import numpy as np  # noqa: E402
 
-FUNS = {'exp': np.exp, 'sin': np.sin}
+def mexp(x):
+    return np.exp(x[0]) + x[0] * x[1] * x[1] + np.sin(x[1])
 
 
-def build(fname, method, n, order, gen, shared=None):
+def vexp(x):
+    return np.array([np.exp(x[0]) * x[1], x[0] + np.sin(x[1]) * x[0]])
+
+
+FUNS = {'exp': np.exp, 'sin': np.sin, 'mexp': mexp, 'vexp': vexp}
+
+
+def build(fname, method, n, order, gen, shared=None, cls='Derivative'):
     import numdifftools as nd
     from numdifftools.step_generators import MinStepGenerator, MaxStepGenerator
-    kw = dict(method=method, n=n, order=order, full_output=True)
+    kw = dict(method=method, full_output=True)
+    if cls == 'Derivative':
+        kw['n'] = n
+    if cls != 'Hessian':
+        kw['order'] = order
     if gen == 'max':
         kw['step'] = shared['max'] if shared else MaxStepGenerator()
     elif gen == 'min':
         kw['step'] = shared['min'] if shared else MinStepGenerator()
     elif gen == 'ratio3':
         kw['step_ratio'] = 3
-    return nd.Derivative(FUNS[fname], **kw)
+    return getattr(nd, cls)(FUNS[fname], **kw)
 
 
 def encode(a):
@@ -59,5 +71,5 @@ def observe_array(obj, arr):
 
 if __name__ == '__main__':
     c = json.loads(sys.argv[1])
-    obj = build(c['fname'], c['method'], c['n'], c['order'], c['gen'])
+    obj = build(c['fname'], c['method'], c['n'], c['order'], c['gen'], cls=c.get('cls', 'Derivative'))
     print(json.dumps(observe(obj, c['x'])))
